@@ -60,6 +60,20 @@ def remove_nodes(text, keys, g, local_of):
     return ET.tostring(root, encoding="unicode"), removed
 
 
+def duplicate_node(text, rng):
+    """repeat one node element of a document (overlapping exports define a node twice)"""
+    import copy
+    import lxml.etree as ET
+    root = ET.fromstring(text.encode("utf-8"))
+    X = "{%s}" % D.NS_XSD
+    els = [e for e in root if isinstance(e.tag, str) and e.tag[len(X):] in D.CLASSES]
+    if not els:
+        return text
+    e = rng.choice(els)
+    root.insert(rng.choice([root.index(els[0]), len(root)]), copy.deepcopy(e))
+    return ET.tostring(root, encoding="unicode")
+
+
 def closure_cases(run, sc, n):
     rng = run.rng
     for i in range(n):
@@ -75,6 +89,10 @@ def closure_cases(run, sc, n):
             drop = rng.choice(sorted(files2))
             victims |= {k_ for k_ in keys if False}
             del files2[drop]
+        repeated = rng.random() < 0.25
+        if repeated:
+            nm = rng.choice(sorted(files2))
+            files2[nm] = duplicate_node(files2[nm], rng)
         case = {"files": files2}
         # what is parsed, before the closure check (oracle for the expected outcome)
         d0, paths = P.write_set(sc, "p%d" % i, dict(files2))
@@ -89,7 +107,7 @@ def closure_cases(run, sc, n):
         miss_src = [r for r in refs if r[0] not in ids]
         miss_trg = [r for r in refs if r[1] not in ids]
         closed = not miss_src and not miss_trg
-        run.case({"set": i, "removed": len(victims)}, nontrivial=not closed, tag="closure:" + ("closed" if closed else "src" if miss_src else "trg"))
+        run.case({"set": i, "removed": len(victims)}, nontrivial=not closed, tag="closure:" + ("closed" if closed else "src" if miss_src else "trg") + (":repeated-node" if repeated else ""))
         run.compared += 1
         res = build(files2, sc, "b%d" % i)
         mo = run.driver.ask({"op": "closed.validate", "ids": ids, "refs": refs})
@@ -125,7 +143,16 @@ def closure_cases(run, sc, n):
 
 def lookup_cases(run, sc, n):
     rng = run.rng
-    g, files = W.gen_closed(rng, hostile=False, n_ns=2, n_nodes=8)
+    g, _ = W.gen_closed(rng, hostile=False, n_ns=2, n_nodes=8)
+    # duplicated browse names: within one node class and across classes / namespaces
+    keys = list(g["nodes"])
+    for _ in range(4):
+        a, b = rng.sample(keys, 2)
+        g["nodes"][b]["browse"] = g["nodes"][a]["browse"]
+    same_cls = [(a, b) for a in keys for b in keys if a < b and g["nodes"][a]["cls"] == g["nodes"][b]["cls"]]
+    for a, b in rng.sample(same_cls, min(2, len(same_cls))):
+        g["nodes"][b]["browse"] = g["nodes"][a]["browse"]
+    files = D.serialise(rng, g)
     G, _ = W.build_graph(sc, "lk", files)
     rows = [{"id": int(r["id"]), "cls": r["NodeClass"], "browse": r["BrowseName"]} for _, r in G.nodes.iterrows()]
     names = sorted({r["browse"] for r in rows})
@@ -135,6 +162,12 @@ def lookup_cases(run, sc, n):
     for _ in range(n):
         name = rng.choice(names + ["NoSuchName", "", "Speed", "Pump"])
         cls = rng.choice([None, "Object", "Variable", "ObjectType", "DataType", "ReferenceType", "VariableType", "Method", "View"])
+        if rng.random() < 0.6:          # a present name, with the class of one of its bearers (or none)
+            r0 = rng.choice(rows)
+            dup = [r for r in rows if sum(1 for q in rows if q["browse"] == r["browse"]) > 1]
+            if dup and rng.random() < 0.5:
+                r0 = rng.choice(dup)
+            name, cls = r0["browse"], rng.choice([None, r0["cls"][2:]])
         plan.append((name, cls))
         op = {"op": "browse.lookup", "nodes": rows, "name": name}
         if cls:
